@@ -903,6 +903,57 @@ Proof.
     destruct (c_str ser); reflexivity.
 Qed.
 
+(* ------------------------------------------------------------------ any descriptor number is a descriptor *)
+
+(* the caller's descriptor number plays no role *)
+Theorem fd_number_irrelevant : forall fd1 fd2,
+  object_from_fd_ex_on fd1 = object_from_fd_ex_on fd2 /\ object_to_fd_on fd1 = object_to_fd_on fd2.
+Proof. split; reflexivity. Qed.
+
+(* every value >= 0 that open() returns — 0 included — is an opened file: the run is that of a
+   successful open and exactly that descriptor is closed, once, on every returning path *)
+Theorem from_file_any_descriptor : forall ret parse app_ok sched data,
+  0 <= ret ->
+  exists r closed, object_from_file_ret ret parse app_ok sched data = (r, 1, closed)
+    /\ object_from_file true parse app_ok sched data = (r, 1, zlen closed)
+    /\ (closed = [ret] \/ (closed = [] /\ exists pb c, r = ROutOfSchedule pb c)).
+Proof.
+  intros ret parse app_ok sched data H. unfold object_from_file_ret, open_failed.
+  replace (ret <? 0) with false by lia. cbn [negb]. unfold object_from_file. cbn [negb].
+  destruct (object_from_fd parse app_ok sched data) as [o|pb c]; cbn.
+  - eexists. eexists. repeat split. now left.
+  - eexists. eexists. repeat split. right. split; [reflexivity|now exists pb, c].
+Qed.
+
+Theorem to_file_any_descriptor : forall ret sched ser,
+  0 <= ret ->
+  exists r closed, object_to_file_ext_ret ret sched false ser = (r, 1, closed)
+    /\ r = object_to_fd sched false ser
+    /\ (forall rc m d c, r = WRet rc m d c -> closed = [ret]).
+Proof.
+  intros ret sched ser H. unfold object_to_file_ext_ret, open_failed.
+  replace (ret <? 0) with false by lia. cbn [negb]. unfold object_to_file_ext, object_to_fd. cbn [negb].
+  destruct (object_to_fd_inner sched ser) eqn:E; cbn; eexists; eexists; repeat split; intros; congruence.
+Qed.
+
+(* -1 is the failure value: reported, nothing read or written, nothing to close *)
+Theorem open_minus_one_is_the_failure : forall parse app_ok sched data ser,
+  object_from_file_ret (-1) parse app_ok sched data = (RRet (mkrout JNull MOpen 0 None 0), 1, [])
+  /\ object_to_file_ext_ret (-1) sched false ser = (WRet (-1) true [] 0, 1, []).
+Proof. split; reflexivity. Qed.
+
+(* the results for any two descriptor numbers >= 0 coincide *)
+Theorem file_results_independent_of_descriptor : forall n m parse app_ok sched data ser,
+  0 <= n -> 0 <= m ->
+  fst (fst (object_from_file_ret n parse app_ok sched data)) = fst (fst (object_from_file_ret m parse app_ok sched data))
+  /\ fst (fst (object_to_file_ext_ret n sched false ser)) = fst (fst (object_to_file_ext_ret m sched false ser)).
+Proof.
+  intros n m parse app_ok sched data ser Hn Hm. unfold object_from_file_ret, object_to_file_ext_ret, open_failed.
+  replace (n <? 0) with false by lia. replace (m <? 0) with false by lia. cbn [negb].
+  destruct (object_from_file true parse app_ok sched data) as [[r o] c].
+  destruct (object_to_file_ext true sched false ser) as [[r' o'] c']. split; reflexivity.
+Qed.
+
 (* ------------------------------------------------------------------ non-vacuity *)
 
 (* "hello" = 104 101 108 108 111 *)
@@ -993,4 +1044,14 @@ Example position_nonvacuous :
     (WRet 0 false [91;93] 2, [49;50;91;93;53;54], 4)
   /\ object_to_fd_at [Short 1; Short 9] [49;50;51;52;53;54] 2 true false (Some [91;93]) =
     (WRet 0 false [91;93] 2, [49;50;51;52;53;54;91;93], 8).
+Proof. repeat split. Qed.
+
+(* descriptor 0 is a descriptor *)
+Example descriptor_zero_nonvacuous :
+  object_from_file_ret 0 show_parse (fun _ _ => true) [Short 9; Short 9] [91;49;93] =
+    (RRet (mkrout (JArr [JInt 32; JStr [91;49;93]]) MNone 2 (Some (32, [91;49;93], 1)) 0), 1, [0])
+  /\ object_to_file_ext_ret 0 [Short 9] false (Some [91;49;93]) = (WRet 0 false [91;49;93] 1, 1, [0])
+  /\ object_to_file_ext_ret 2147483647 [Short 1; Err 5] false (Some [91;49;93]) = (WRet (-1) true [91] 2, 1, [2147483647])
+  /\ object_from_file_ret (-1) show_parse (fun _ _ => true) [Short 9; Short 9] [91;49;93] =
+    (RRet (mkrout JNull MOpen 0 None 0), 1, []).
 Proof. repeat split. Qed.
